@@ -775,6 +775,148 @@ func c12RunFresh(line string) string {
 	return fmt.Sprintf("ok rounds=%d", rounds)
 }
 
+
+// ---------------------------------------------------------------------------------------------
+// messages that are Ask objects: the mailbox guarantees are the same whatever the message type
+
+func c12RunAskMsg(line string) string {
+	toks := strings.Fields(line)
+	capacity, n, m := c12KVInt(toks, "cap"), c12KVInt(toks, "n"), c12KVInt(toks, "m")
+	counts := make([][]int32, n)
+	lastSeq := make([]int32, n)
+	for i := range counts {
+		counts[i] = make([]int32, m)
+		lastSeq[i] = -1
+	}
+	var running, delivered, selfBad int32
+	var violMu sync.Mutex
+	viol := ""
+	setViol := func(s string) {
+		violMu.Lock()
+		if viol == "" {
+			viol = s
+		}
+		violMu.Unlock()
+	}
+	var actor *fpgo.ActorDef[interface{}]
+	effect := func(self *fpgo.ActorDef[interface{}], msg interface{}) {
+		if r := atomic.AddInt32(&running, 1); r > 1 {
+			setViol(fmt.Sprintf("overlap %d effects running at once on one actor", r))
+		}
+		if self != actor {
+			atomic.AddInt32(&selfBad, 1)
+		}
+		var i, seq int
+		var ask *fpgo.AskDef[int, int]
+		switch x := msg.(type) {
+		case c12Msg:
+			i, seq = x.sender, x.seq
+		case *fpgo.AskDef[int, int]:
+			ask = x
+			i, seq = x.Message/100000, x.Message%100000
+		default:
+			setViol("phantom message of an unknown type")
+		}
+		time.Sleep(30 * time.Microsecond) // a slow effect: a second one started meanwhile would be seen
+		if i < 0 || i >= n || seq < 0 || seq >= m {
+			setViol(fmt.Sprintf("phantom message %d/%d", i, seq))
+		} else {
+			if c := atomic.AddInt32(&counts[i][seq], 1); c > 1 {
+				setViol(fmt.Sprintf("duplicate message %d/%d ran %d times", i, seq, c))
+			}
+			if prev := atomic.SwapInt32(&lastSeq[i], int32(seq)); int32(seq) <= prev {
+				setViol(fmt.Sprintf("order sender %d: %d ran after %d", i, seq, prev))
+			}
+		}
+		atomic.AddInt32(&running, -1)
+		atomic.AddInt32(&delivered, 1)
+		if ask != nil {
+			func() {
+				defer func() {
+					if r := recover(); r != nil {
+						setViol(fmt.Sprint("panic in Reply: ", r))
+					}
+				}()
+				ask.Reply(ask.Message*3 + 1)
+			}()
+		}
+	}
+	var proto fpgo.ActorDef[interface{}]
+	if capacity == 0 {
+		actor = proto.New(effect)
+	} else {
+		actor = proto.NewByOptions(effect, make(chan interface{}, capacity), map[string]interface{}{})
+	}
+	var wg sync.WaitGroup
+	for i := 0; i < n; i++ {
+		wg.Add(1)
+		go func(i int) {
+			defer wg.Done()
+			defer func() {
+				if r := recover(); r != nil {
+					setViol(fmt.Sprint("panic escaped from Send/AskChannel: ", r))
+				}
+			}()
+			type pending struct {
+				p  int
+				ch chan int
+			}
+			var waitFor []pending
+			for seq := 0; seq < m; seq++ {
+				if (i+seq)%3 == 0 { // a plain message now and then, in the same per-sender sequence
+					actor.Send(c12Msg{i, seq})
+					continue
+				}
+				p := i*100000 + seq
+				var ask *fpgo.AskDef[int, int]
+				if seq%2 == 0 {
+					ask = fpgo.AskNewByOptionsGenerics[int, int](p, make(chan int, 1))
+				} else {
+					var ap fpgo.AskDef[int, int]
+					ask = ap.NewByOptions(p, make(chan int, 1))
+				}
+				waitFor = append(waitFor, pending{p, ask.AskChannel(actor)}) // buffered reply: several requests in flight
+			}
+			for _, w := range waitFor {
+				select {
+				case v := <-w.ch:
+					if v != w.p*3+1 {
+						setViol(fmt.Sprintf("misrouted reply %d for request %d", v, w.p))
+					}
+				case <-time.After(c13StressPatience(10 * time.Second)):
+					setViol(fmt.Sprintf("lost reply for request %d", w.p))
+					return
+				}
+			}
+		}(i)
+	}
+	done := make(chan struct{})
+	go func() { wg.Wait(); close(done) }()
+	select {
+	case <-done:
+	case <-time.After(c13StressPatience(30 * time.Second)):
+		atomic.AddInt32(&c13StressViols, 1)
+		return "viol deadlock senders still blocked"
+	}
+	deadline := time.Now().Add(c13StressPatience(10 * time.Second))
+	for atomic.LoadInt32(&delivered) < int32(n*m) && time.Now().Before(deadline) && viol == "" {
+		time.Sleep(50 * time.Microsecond)
+	}
+	d := atomic.LoadInt32(&delivered)
+	func() { defer func() { recover() }(); actor.Close() }()
+	if viol == "" && d != int32(n*m) {
+		viol = fmt.Sprintf("lost delivered=%d of %d", d, n*m)
+	}
+	if viol == "" && atomic.LoadInt32(&selfBad) != 0 {
+		viol = "self effect received another actor"
+	}
+	if viol != "" {
+		atomic.AddInt32(&c13StressViols, 1)
+		return "viol " + viol
+	}
+	return fmt.Sprintf("ok delivered=%d", d)
+}
+
 // ---------------------------------------------------------------------------------------------
 // spawn trees
 
@@ -941,6 +1083,8 @@ func c12Run(line string) string {
 		return c12RunStress(line)
 	case strings.HasPrefix(line, "fresh "):
 		return c12RunFresh(line)
+	case strings.HasPrefix(line, "askmsg "):
+		return c12RunAskMsg(line)
 	case strings.HasPrefix(line, "tree"):
 		return c12RunTree(line)
 	}
@@ -1171,6 +1315,19 @@ func c12Gen(tier string, rng *rand.Rand, emit func(string)) map[string]interface
 		}
 	}
 	stats["fresh_cases"] = nFresh
+	// (4c) Ask objects as messages (sent through AskChannel, several in flight per sender) next to plain ones
+	nAskMsg := 0
+	for _, capacity := range []int{0, 4} {
+		for _, n := range []int{1, 4} {
+			mm := 12 + rng.Intn(12)
+			if thorough {
+				mm *= 5
+			}
+			emit(fmt.Sprintf("askmsg cap=%d n=%d m=%d seed=%d", capacity, n, mm, rng.Intn(1000000)))
+			nAskMsg++
+		}
+	}
+	stats["askmsg_cases"] = nAskMsg
 	// (5) spawn trees: sequential histories
 	nTree := 120
 	if thorough {
